@@ -623,7 +623,7 @@ func validate(data []byte, m model, r *fw.R) (list []finding, key [20]byte) {
 		if pg.HasBox && pm != nil {
 			want := [4]float64{0, 0, pm.w * ptPerMm, pm.h * ptPerMm}
 			for k := range want {
-				if math.Abs(pg.MediaBox[k]-want[k]) > 0.01 {
+				if !(math.Abs(pg.MediaBox[k]-want[k]) <= 0.01) {
 					f.add("page-mediabox", "%s: MediaBox %v, the page was created as %g x %g mm = %v pt", where, pg.MediaBox, pm.w, pm.h, want)
 					break
 				}
